@@ -103,6 +103,7 @@ pub fn check_library(ctx: &mut Ctx, src: &str, deep: bool) -> Reached {
     let ntok_guess = src.len() as u64 + 1;
     verif_hooks::reset();
     verif_hooks::set_parse_calls_cap(400 * (ntok_guess + 1) * (ntok_guess + 1) + 100_000);
+    verif_hooks::set_order_check_calls_cap(400 * (ntok_guess + 1) * (ntok_guess + 1) + 100_000);
     let r = guard(|| {
         let ts = match tokenize(None, src) {
             Ok(ts) => ts,
@@ -122,9 +123,10 @@ pub fn check_library(ctx: &mut Ctx, src: &str, deep: bool) -> Reached {
         }
     });
     verif_hooks::set_parse_calls_cap(0);
+    verif_hooks::set_order_check_calls_cap(0);
     match r {
         Err(p) => {
-            let key = if p.contains("parse call cap") { "parse-work-cap-exceeded".to_owned() } else { format!("panic@{}", panic_site(&p)) };
+            let key = if p.contains("parse call cap") || p.contains("check call cap") { "parse-work-cap-exceeded".to_owned() } else { format!("panic@{}", panic_site(&p)) };
             viol(ctx, &key, &format!("a library stage panicked: {p}"), src.as_bytes());
             Reached::Crashed
         }
